@@ -73,6 +73,9 @@ def run(repo: Repo, rep: Report, tier: str) -> None:
     rec = [n for n in walk_local(hr.node) if isinstance(n, ast.Assign) and norm(n.targets[0]) == "self._read_sources[op.node_id]"]
     rep.check(bool(rec) and norm(rec[0].value) == "op.memory_id", "C04-R2", "every read is recorded under its memory id before any early return", norm(rec[0]) if rec else "", hr.loc())
 
+    from .shared import reads_repointed_only_for_own_cell
+    reads_repointed_only_for_own_cell(repo, rep, "C04-R2")
+
     # ---------------- R3 ---------------------------------------------------------------
     rep.rule("C04-R3", "single-node case: has_self_feedback/feedback_signal are written and read by a function that adds an output->input self-connection whose colour equals the colour locked "
              "for the feedback signal; chain case: an edge from the last node to the first consumer is registered")
